@@ -27,6 +27,7 @@ import py2lean
 
 # generated modules, in dependency order
 GEN = [("operation", "dsw/operation.py", "DswModel.Gen.Operation"),
+       ("graphized", "dsw/graphized.py", "DswModel.Gen.Graphized"),
        ("spiderweb", "dsw/spiderweb.py", "DswModel.Gen.Spiderweb")]
 
 TIES = {
@@ -43,6 +44,14 @@ TIES = {
             "number_to_dna": ("DswModel.Tie.OpDna", ["tie_number_to_dna_str", "tie_number_to_dna_int", "tie_number_to_dna_other"]),
         },
         "extra_modules": ["DswModel.Tie.Corollaries"],
+    },
+    "graphized": {
+        "theorems": {
+            "obtain_latters": ("DswModel.Tie.GzArith", ["tie_obtain_latters"]),
+            "obtain_formers": ("DswModel.Tie.GzArith", ["tie_obtain_formers"]),
+            "get_complete_accessor": ("DswModel.Tie.GzArith", ["tie_get_complete_accessor"]),
+        },
+        "extra_modules": [],
     },
     "spiderweb": {
         "theorems": {
